@@ -483,7 +483,7 @@ mod replay {
         fn obs(&self) -> X {
             let mut l = Vec::new();
             for (i, port) in self.ports.iter().enumerate() {
-                let pc = if self.lst[i] == LSt::Parked && self.ctl.peek(Role::Listener(*port)).is_none() {
+                let pc = if self.lst[i] == LSt::Parked {
                     4
                 } else {
                     match self.ctl.peek(Role::Listener(*port)).or(self.ctl.last(Role::Listener(*port))) {
